@@ -1,4 +1,5 @@
 """call models for the R5 abstract interpreter: the semantics of resolved callees as abstract values"""
+import re
 from .poly import Poly
 from .r5 import (
     BIGINT, BOOL, ENUM, INT, MAG, OPAQUE, ORD, PTR, SIGN, SIGNED, STRUCT, TUPLE, UNIT, UNSIGNED,
@@ -80,6 +81,10 @@ def cmp_polys(st, x, y):
             return 0
         return 1 if y.is_zero() else -1
     raise NeedFork(("cmp", x, y))
+
+
+def prim_bits(ty):
+    return {"8": 8, "16": 16, "32": 32, "64": 64, "128": 128, "size": 64}.get(ty[1:], 64)
 
 
 def dispatch(it, body, st, t, fn, args, depth):
@@ -515,6 +520,33 @@ def dispatch(it, body, st, t, fn, args, depth):
             if p.single_symbol():
                 st.nz.add(p.single_symbol())
             return ret(st, ENUM("core::option::Option", "None", []))
+    # ---- `<T as NumCast>::from(x)` / `T::from(x)` on a primitive integer x: Some(x) when x fits T, None otherwise. T is the
+    # written Self type, or - inside a generic helper - the primitive the helper's `T`-typed argument holds in this case
+    if raw == "num_traits::NumCast::from":
+        m_ = re.match(r"<(\w+) as num_traits::NumCast>::from", fn.get("raw_full") or fn.get("full") or "")
+        v = it.deref_all(st, args[0]) if args and args[0][0] == "ptr" else (args[0] if args else None)
+        if m_ and v is not None and v[0] == "int" and len(v) > 2:
+            ty = m_.group(1)
+            if ty not in UNSIGNED | SIGNED:
+                ty = None
+                for i_ in range(1, body.arg_count + 1):
+                    a_ = st.env.get((st.fid, i_))
+                    if body.locals[i_]["ty"] == m_.group(1) and a_ is not None and a_[0] == "int" and len(a_) > 2:
+                        ty = a_[2]
+            sty = v[2]
+            if ty in UNSIGNED | SIGNED and sty in UNSIGNED:
+                p = v[1]
+                sb, tb = prim_bits(sty), prim_bits(ty)
+                if (p.is_const() and p.const_value() == 0) or (ty in UNSIGNED and tb >= sb) or (ty in SIGNED and tb > sb):
+                    return ret(st, ENUM("core::option::Option", "Some", [INT(p, ty)]))
+                key = "fits_%s(%r)" % (ty, p)
+                if key not in st.bools:
+                    raise NeedFork(("bool", key))
+                if st.bools[key]:
+                    return ret(st, ENUM("core::option::Option", "Some", [INT(p, ty)]))
+                if p.single_symbol():
+                    st.nz.add(p.single_symbol())
+                return ret(st, ENUM("core::option::Option", "None", []))
     # ---- extended_gcd on BigInt (num-integer's generic default method): fresh symbols g >= 0, x, y with P*x + Q*y = g
     if name == "extended_gcd" and len(args) == 2:
         vs = [it.deref_all(st, a) for a in args]
